@@ -7,3 +7,10 @@ Proof. vm_compute. reflexivity. Qed.
 
 Lemma live_ok_router : reg_ok_router live_registry = true.
 Proof. vm_compute. reflexivity. Qed.
+
+From Indi Require Import Msg.Model Msg.Conform.
+Lemma live_ok_c13 : reg_ok_c13 live_registry = true.
+Proof. vm_compute. reflexivity. Qed.
+
+Lemma live_probes_ok : probes_ok live_registry = true.
+Proof. vm_compute. reflexivity. Qed.
